@@ -14,7 +14,7 @@ RULE = ('all outcome sequences of length n+2 over {success, listed code, unliste
         'additionally {batch-level listed error, batch with a failed element}; x codes / exceptions sets {None, empty, one, several} x '
         'backoff family (periodic, exponential with / without cap incl. a cap below the first delay, Fibonacci with default / custom / no cap) '
         'with dyadic-rational parameters and non-zero jitter x single / batch / notification x client-wide / per-request / explicitly '
-        'disabled (None) / none at all x sync / async. time.sleep / asyncio.sleep are patched to record; Fraction(float) of every recorded '
+        'disabled (None) / none at all x sync / async; in a third of the cases the same client and strategy objects served, just before, another request that used up its retries. time.sleep / asyncio.sleep are patched to record; Fraction(float) of every recorded '
         'delay must equal the model rational exactly. distinct = distinct full case; non-trivial = more than one send')
 EXHAUSTIVE = {'quick': False, 'thorough': False}
 TRUSTED_BASE = ['IEEE-754 double arithmetic is exact on the generated dyadic parameters (numerators <= 15, denominators <= 8, exponents <= 4)',
@@ -86,6 +86,10 @@ def generate(seed, tier):
             c = mk(script + [['ok']] * 2, 2, 3, [LISTED_CODE], None, 'client', 'batch', rnd)
             c['async'] = is_async
             cases.append(c)
+    # a third of the cases: the same client and strategy objects have already served a request that used up its retries
+    for i, c in enumerate(cases):
+        if i % 3 == 0:
+            c['warm'] = True
     return cases
 
 
